@@ -45,6 +45,10 @@ spec fn q() -> int { val4(MODULUS_LIMBS) }
 #[verifier::opaque]
 spec fn mulu(b: u64, c: u64) -> int { (b as int) * (c as int) }
 
+/// generic opaque product of two integers (row products of the schoolbook multiplication).
+#[verifier::opaque]
+spec fn muli(a: int, b: int) -> int { a * b }
+
 /// k * q, opaque for the same reason.
 #[verifier::opaque]
 spec fn kq(k: int) -> int { k * q() }
@@ -214,4 +218,139 @@ proof fn lemma_congruent_from_multiple(a: int, b: int, k: int, m: int)
     ensures congruent(a, b, m),
 {
     vstd::arithmetic::div_mod::lemma_mod_multiples_basic(k, m);
+}
+
+/// One row of the schoolbook product: (x + a * B) in limbs.
+proof fn lemma_mul_row(x0: int, x1: int, x2: int, x3: int, a: u64, b0: u64, b1: u64, b2: u64, b3: u64,
+    c1: int, c2: int, c3: int, y0: int, y1: int, y2: int, y3: int, y4: int)
+    requires
+        y0 + 0x1_0000_0000_0000_0000int * c1 == x0 + mulu(a, b0),
+        y1 + 0x1_0000_0000_0000_0000int * c2 == x1 + mulu(a, b1) + c1,
+        y2 + 0x1_0000_0000_0000_0000int * c3 == x2 + mulu(a, b2) + c2,
+        y3 + 0x1_0000_0000_0000_0000int * y4 == x3 + mulu(a, b3) + c3,
+    ensures
+        y0 + 0x1_0000_0000_0000_0000int * (y1 + 0x1_0000_0000_0000_0000int * (y2 + 0x1_0000_0000_0000_0000int * (y3 + 0x1_0000_0000_0000_0000int * y4)))
+            == ival4(x0, x1, x2, x3) + muli(a as int, ival4(b0 as int, b1 as int, b2 as int, b3 as int)),
+{
+    reveal(mulu);
+    reveal(muli);
+    let p = 0x1_0000_0000_0000_0000int;
+    let aa = a as int;
+    let (b0, b1, b2, b3) = (b0 as int, b1 as int, b2 as int, b3 as int);
+    assert(aa * (b0 + p * (b1 + p * (b2 + p * b3))) == aa * b0 + p * (aa * b1 + p * (aa * b2 + p * (aa * b3)))) by (nonlinear_arith)
+        requires p == 0x1_0000_0000_0000_0000int;
+}
+
+/// Four rows compose to the full 512-bit product.
+proof fn lemma_mul_compose(a0: int, a1: int, a2: int, a3: int, bb: int,
+    z0: int, s1: int, s2: int, s3: int, s4: int,
+    z1: int, t2: int, t3: int, t4: int, t5: int,
+    z2: int, u3: int, u4: int, u5: int, u6: int,
+    z3: int, z4: int, z5: int, z6: int, z7: int)
+    requires
+        z0 + 0x1_0000_0000_0000_0000int * (s1 + 0x1_0000_0000_0000_0000int * (s2 + 0x1_0000_0000_0000_0000int * (s3 + 0x1_0000_0000_0000_0000int * s4)))
+            == ival4(0, 0, 0, 0) + muli(a0, bb),
+        z1 + 0x1_0000_0000_0000_0000int * (t2 + 0x1_0000_0000_0000_0000int * (t3 + 0x1_0000_0000_0000_0000int * (t4 + 0x1_0000_0000_0000_0000int * t5)))
+            == ival4(s1, s2, s3, s4) + muli(a1, bb),
+        z2 + 0x1_0000_0000_0000_0000int * (u3 + 0x1_0000_0000_0000_0000int * (u4 + 0x1_0000_0000_0000_0000int * (u5 + 0x1_0000_0000_0000_0000int * u6)))
+            == ival4(t2, t3, t4, t5) + muli(a2, bb),
+        z3 + 0x1_0000_0000_0000_0000int * (z4 + 0x1_0000_0000_0000_0000int * (z5 + 0x1_0000_0000_0000_0000int * (z6 + 0x1_0000_0000_0000_0000int * z7)))
+            == ival4(u3, u4, u5, u6) + muli(a3, bb),
+    ensures
+        ival8(z0, z1, z2, z3, z4, z5, z6, z7) == ival4(a0, a1, a2, a3) * bb,
+{
+    reveal(muli);
+    let p = 0x1_0000_0000_0000_0000int;
+    let (m0, m1, m2, m3) = (a0 * bb, a1 * bb, a2 * bb, a3 * bb);
+    assert(ival4(a0, a1, a2, a3) * bb == m0 + p * (m1 + p * (m2 + p * m3))) by (nonlinear_arith)
+        requires p == 0x1_0000_0000_0000_0000int, m0 == a0 * bb, m1 == a1 * bb, m2 == a2 * bb, m3 == a3 * bb,
+            ival4(a0, a1, a2, a3) == a0 + p * (a1 + p * (a2 + p * a3));
+    let w3 = z3 + p * (z4 + p * (z5 + p * (z6 + p * z7)));
+    let w2 = z2 + p * w3;
+    let w1 = z1 + p * w2;
+    let w0 = z0 + p * w1;
+    assert(w3 == ival4(u3, u4, u5, u6) + m3);
+    assert(w2 == ival4(t2, t3, t4, t5) + m2 + p * m3);
+    assert(w1 == ival4(s1, s2, s3, s4) + m1 + p * (m2 + p * m3));
+    assert(w0 == m0 + p * (m1 + p * (m2 + p * m3)));
+    assert(w0 == ival8(z0, z1, z2, z3, z4, z5, z6, z7));
+}
+
+proof fn lemma_prod_bound(a: int, b: int)
+    requires 0 <= a < r256(), 0 <= b < r256(), a < q() || b < q(),
+    ensures 0 <= a * b < q() * r256(),
+{
+    lemma_q_bounds();
+    if a < q() {
+        assert(a * b < q() * r256()) by (nonlinear_arith) requires 0 <= a < q(), 0 <= b < r256();
+    } else {
+        assert(a * b < q() * r256()) by (nonlinear_arith) requires 0 <= b < q(), 0 <= a < r256();
+    }
+    assert(0 <= a * b) by (nonlinear_arith) requires 0 <= a, 0 <= b;
+}
+
+/// The Montgomery constants that ship satisfy their defining equations.
+proof fn lemma_consts()
+    ensures
+        reduced(R), reduced(R2), reduced(R3),
+        val4(R.0) == r256() % q(),
+        val4(R2.0) == (r256() * r256()) % q(),
+        val4(R3.0) == (r256() * r256() * r256()) % q(),
+{
+    // evaluated by Verus' interpreter on the constants extracted from the source
+    assert(val4(R.0) < q()) by (compute_only);
+    assert(val4(R2.0) < q()) by (compute_only);
+    assert(val4(R3.0) < q()) by (compute_only);
+    assert(val4(R.0) == r256() % q()) by (compute_only);
+    assert(val4(R2.0) == (r256() * r256()) % q()) by (compute_only);
+    assert(val4(R3.0) == (r256() * r256() * r256()) % q()) by (compute_only);
+}
+
+// ---------------- published constants (Montgomery form) ----------------
+
+spec fn modpow(b: int, e: nat, m: int) -> int
+    decreases e
+{
+    if e == 0 { 1int % m } else if e % 2 == 0 { let h = modpow(b, e / 2, m); (h * h) % m } else { (b * modpow(b, (e - 1) as nat, m)) % m }
+}
+
+spec fn p2(n: nat) -> int
+    decreases n
+{
+    if n == 0 { 1int } else { 2 * p2((n - 1) as nat) }
+}
+
+/// R^-1 mod q (by Fermat; its defining equation is checked below, so primality is not assumed)
+spec fn rinv() -> int { modpow(r256() % q(), (q() - 2) as nat, q()) }
+
+/// the field element denoted by a Montgomery representative
+spec fn iota(x: Fr) -> int { (val4(x.0) * rinv()) % q() }
+
+proof fn lemma_constants_defining_equations()
+    ensures
+        (rinv() * r256()) % q() == 1,
+        p2((MODULUS_BITS - 1) as nat) <= q() < p2(MODULUS_BITS as nat),
+        reduced(TWO_INV), (2 * iota(TWO_INV)) % q() == 1,
+        reduced(GENERATOR), iota(GENERATOR) == 6,
+        modpow(6, ((q() - 1) / 2) as nat, q()) == q() - 1,               // quadratic non-residue
+        (q() - 1) % p2(S as nat) == 0, ((q() - 1) / p2(S as nat)) % 2 == 1,   // 2^S * t = q - 1, t odd
+        reduced(ROOT_OF_UNITY),
+        iota(ROOT_OF_UNITY) == modpow(iota(GENERATOR), ((q() - 1) / p2(S as nat)) as nat, q()),
+        modpow(iota(ROOT_OF_UNITY), p2(S as nat) as nat, q()) == 1,
+        modpow(iota(ROOT_OF_UNITY), p2((S - 1) as nat) as nat, q()) != 1,    // order exactly 2^S
+        reduced(ROOT_OF_UNITY_INV), (iota(ROOT_OF_UNITY_INV) * iota(ROOT_OF_UNITY)) % q() == 1,
+        reduced(DELTA), iota(DELTA) == modpow(iota(GENERATOR), p2(S as nat) as nat, q()),
+{
+    assert((rinv() * r256()) % q() == 1) by (compute_only);
+    assert(p2((MODULUS_BITS - 1) as nat) <= q() < p2(MODULUS_BITS as nat)) by (compute_only);
+    assert(val4(TWO_INV.0) < q() && (2 * iota(TWO_INV)) % q() == 1) by (compute_only);
+    assert(val4(GENERATOR.0) < q() && iota(GENERATOR) == 6) by (compute_only);
+    assert(modpow(6, ((q() - 1) / 2) as nat, q()) == q() - 1) by (compute_only);
+    assert((q() - 1) % p2(S as nat) == 0 && ((q() - 1) / p2(S as nat)) % 2 == 1) by (compute_only);
+    assert(val4(ROOT_OF_UNITY.0) < q()) by (compute_only);
+    assert(iota(ROOT_OF_UNITY) == modpow(iota(GENERATOR), ((q() - 1) / p2(S as nat)) as nat, q())) by (compute_only);
+    assert(modpow(iota(ROOT_OF_UNITY), p2(S as nat) as nat, q()) == 1) by (compute_only);
+    assert(modpow(iota(ROOT_OF_UNITY), p2((S - 1) as nat) as nat, q()) != 1) by (compute_only);
+    assert(val4(ROOT_OF_UNITY_INV.0) < q() && (iota(ROOT_OF_UNITY_INV) * iota(ROOT_OF_UNITY)) % q() == 1) by (compute_only);
+    assert(val4(DELTA.0) < q() && iota(DELTA) == modpow(iota(GENERATOR), p2(S as nat) as nat, q())) by (compute_only);
 }
